@@ -161,8 +161,6 @@ theorem tpfa_Mmatrix (g : Grid) (hwf : WellFormed g) (hpos : ∀ h ∈ g.hf, 0 <
         apply sumTo_congr
         intro f _
         rw [← sumTo_mul_left, ← sumTo_mul_left]
-        apply sumTo_congr
-        intro c2 _; ring
       rw [h1]
       apply sumTo_nonneg
       intro f hf
@@ -225,5 +223,234 @@ theorem tpfa_exact_Korth (g : Grid) (f : Nat) (h1 h2 : HF) (K : M3) (lam1 lam2 a
   have hsum : lam2 + lam1 ≠ 0 := by rwa [add_comm]
   field_simp
   linear_combination (-(lam1 + lam2) * X) * hs1
+
+/-- Exactness on K-orthogonal grids, Dirichlet boundary face: with the boundary value of the affine pressure
+    at the face centre, `flux * p + bound_flux * bc` is the exact Darcy flux. -/
+theorem tpfa_exact_Korth_dirichlet (g : Grid) (f : Nat) (h : HF) (K : M3) (lam a : Rat) (G : V3)
+    (p bc : Nat → Rat)
+    (hhf : hfOf g f = [h]) (hs : h.sgn * h.sgn = 1)
+    (hnd : g.bndr.Nodup) (hb : f ∈ g.bndr)
+    (hnn : neuAll g f = false) (hdir : dirEff g f = true)
+    (hK : g.perm h.cell = K) (hsym : K.Symm)
+    (ho : K.mulVec (V3.smul h.sgn (g.normal f)) = V3.smul lam (dvec g h))
+    (hd : (dvec g h).dot (dvec g h) ≠ 0)
+    (hp : p h.cell = a + G.dot (g.cc h.cell)) (hbc : bc f = a + G.dot (g.fc f)) :
+    faceFlux g f p bc = - (g.normal f).dot (K.mulVec G) := by
+  have hf1 : h.face = f := (mem_hfOf.mp (by rw [hhf]; simp : h ∈ hfOf g f)).2
+  have ht : tHalf g h = lam := tHalf_of_Korth g h lam (by rw [hK, hf1]; exact ho) hd
+  have hfull : tFull g f = lam := by
+    unfold tFull; rw [hhf]; simp only [List.map_cons, List.map_nil, ht]; exact harmonic_single lam
+  have e : h.sgn * (K.mulVec (g.normal f)).dot G = lam * (dvec g h).dot G := by
+    have := congrArg (fun v => V3.dot v G) ho
+    simpa [mulVec_smul, dot_smul_left] using this
+  have d : (dvec g h).dot G = G.dot (g.fc f) - G.dot (g.cc h.cell) := by
+    unfold dvec; rw [hf1, dot_sub_left, dot_comm (g.cc h.cell) G, dot_comm (g.fc f) G]
+  unfold faceFlux boundFluxT
+  rw [flux_rowApply, rowApply_diag g.bndr (fun f => tB g f * bsgn g f) f bc hnd, if_pos hb, symm_dot K hsym]
+  simp only [trans, tB, bsgn, hnn, hdir, hfull, hhf, sgnDot, sgnSum, hp, hbc, Bool.false_eq_true, if_false, if_true]
+  rw [d] at e
+  generalize (K.mulVec (g.normal f)).dot G = X at e ⊢
+  generalize G.dot (g.cc h.cell) = A at e ⊢
+  generalize G.dot (g.fc f) = Fc at e ⊢
+  generalize h.sgn = s at hs e ⊢
+  linear_combination s * e - X * hs
+
+/-- Neumann boundary face: the flux over the face is the prescribed outward flux (given with respect to
+    the outward normal, hence the orientation factor), whatever the cell pressures. -/
+theorem tpfa_exact_neumann (g : Grid) (f : Nat) (h : HF) (E : Rat) (p bc : Nat → Rat)
+    (hhf : hfOf g f = [h]) (hs : h.sgn * h.sgn = 1)
+    (hnd : g.bndr.Nodup) (hb : f ∈ g.bndr) (hn : neuAll g f = true)
+    (hbc : bc f = h.sgn * E) :
+    faceFlux g f p bc = E := by
+  unfold faceFlux boundFluxT
+  rw [flux_rowApply, rowApply_diag g.bndr (fun f => tB g f * bsgn g f) f bc hnd, if_pos hb]
+  simp only [trans, tB, bsgn, hn, hhf, sgnSum, hbc, if_true]
+  linear_combination E * hs
+
+/-- Boundary pressure reconstruction on a Neumann face of a K-orthogonal grid: with the exact outward flux
+    of an affine pressure as Neumann datum, `bound_pressure_cell * p + bound_pressure_face * bc` is the
+    affine pressure at the face centre. -/
+theorem tpfa_bound_pressure_exact_Korth (g : Grid) (f : Nat) (h : HF) (K : M3) (lam a : Rat) (G : V3)
+    (p bc : Nat → Rat)
+    (hhf : hfOf g f = [h]) (hf : f < g.nf) (hneu : g.isNeu f = true)
+    (hK : g.perm h.cell = K) (hsym : K.Symm)
+    (ho : K.mulVec (V3.smul h.sgn (g.normal f)) = V3.smul lam (dvec g h))
+    (hd : (dvec g h).dot (dvec g h) ≠ 0) (hl : lam ≠ 0)
+    (hp : p h.cell = a + G.dot (g.cc h.cell))
+    (hbc : bc f = - (V3.smul h.sgn (g.normal f)).dot (K.mulVec G)) :
+    facePressure g f p bc = a + G.dot (g.fc f) := by
+  have hf1 : h.face = f := (mem_hfOf.mp (by rw [hhf]; simp : h ∈ hfOf g f)).2
+  have ht : tHalf g h = lam := tHalf_of_Korth g h lam (by rw [hK, hf1]; exact ho) hd
+  have hfull : tFull g f = lam := by
+    unfold tFull; rw [hhf]; simp only [List.map_cons, List.map_nil, ht]; exact harmonic_single lam
+  have hbc' : bc f = - (lam * (dvec g h).dot G) := by
+    rw [hbc, symm_dot K hsym, ho, dot_smul_left]
+  have d : (dvec g h).dot G = G.dot (g.fc f) - G.dot (g.cc h.cell) := by
+    unfold dvec; rw [hf1, dot_sub_left, dot_comm (g.cc h.cell) G, dot_comm (g.fc f) G]
+  unfold facePressure bpCellT bpFaceT
+  rw [rowApply_weight (fun f => if g.isNeu f = true then 1 else 0),
+    rowApply_filter _ _ _ _ (by intro t _ hq; simpa using hq),
+    rowApply_diag (List.range g.nf) (vFace g) f bc List.nodup_range, if_pos (List.mem_range.mpr hf)]
+  show _ * ((hfOf g f).map _).sum + _ = _
+  rw [hhf]
+  simp only [vFace, hneu, hfull, hbc', d, hp, List.map_cons, List.map_nil, List.sum_cons, List.sum_nil, if_true]
+  field_simp
+  ring
+
+/-- … and on a Dirichlet face the reconstruction returns the boundary datum. -/
+theorem tpfa_bound_pressure_dirichlet (g : Grid) (f : Nat) (p bc : Nat → Rat)
+    (hf : f < g.nf) (hdir : g.isDir f = true) (hneu : g.isNeu f = false) :
+    facePressure g f p bc = bc f := by
+  unfold facePressure bpCellT bpFaceT
+  rw [rowApply_weight (fun f => if g.isNeu f = true then 1 else 0),
+    rowApply_filter _ _ _ _ (by intro t _ hq; simpa using hq),
+    rowApply_diag (List.range g.nf) (vFace g) f bc List.nodup_range, if_pos (List.mem_range.mpr hf)]
+  simp [vFace, hneu, hdir]
+
+/-! ### non-vacuity: the hypotheses are satisfiable on concrete grids, and the conclusions are the numbers
+the real code produces there -/
+
+/-- 1-D grid, nodes 0, 1, 3; constant `K = diag(2,1,1)`; face 0 Dirichlet, face 2 Neumann. -/
+def ex1 : Grid where
+  nf := 3
+  nc := 2
+  hf := [⟨0, 0, -1⟩, ⟨1, 0, 1⟩, ⟨1, 1, -1⟩, ⟨2, 1, 1⟩]
+  normal := fun _ => ⟨1, 0, 0⟩
+  fc := fun f => match f with
+    | 0 => ⟨0, 0, 0⟩
+    | 1 => ⟨1, 0, 0⟩
+    | _ => ⟨3, 0, 0⟩
+  cc := fun c => match c with
+    | 0 => ⟨1 / 2, 0, 0⟩
+    | _ => ⟨2, 0, 0⟩
+  perm := fun _ => ⟨⟨2, 0, 0⟩, ⟨0, 1, 0⟩, ⟨0, 0, 1⟩⟩
+  bndr := [0, 2]
+  isDir := fun f => f == 0
+  isNeu := fun f => f == 2
+  isInt := fun _ => false
+
+def exK : M3 := ⟨⟨2, 0, 0⟩, ⟨0, 1, 0⟩, ⟨0, 0, 1⟩⟩
+def exG : V3 := ⟨3, 5, 7⟩
+/-- affine pressure `1 + G.x` at the cell centres of `ex1` -/
+def exP : Nat → Rat := fun c => 1 + exG.dot (ex1.cc c)
+
+/-- 2 x 1 Cartesian grid in the plane, cell-wise diagonal `K`; faces 0 and 6 Dirichlet, the rest Neumann. -/
+def ex2 : Grid where
+  nf := 7
+  nc := 2
+  hf := [⟨0, 0, -1⟩, ⟨1, 0, 1⟩, ⟨3, 0, -1⟩, ⟨5, 0, 1⟩, ⟨1, 1, -1⟩, ⟨2, 1, 1⟩, ⟨4, 1, -1⟩, ⟨6, 1, 1⟩]
+  normal := fun f => if f < 3 then ⟨1, 0, 0⟩ else ⟨0, 1, 0⟩
+  fc := fun f => match f with
+    | 0 => ⟨0, 1 / 2, 0⟩
+    | 1 => ⟨1, 1 / 2, 0⟩
+    | 2 => ⟨2, 1 / 2, 0⟩
+    | 3 => ⟨1 / 2, 0, 0⟩
+    | 4 => ⟨3 / 2, 0, 0⟩
+    | 5 => ⟨1 / 2, 1, 0⟩
+    | _ => ⟨3 / 2, 1, 0⟩
+  cc := fun c => match c with
+    | 0 => ⟨1 / 2, 1 / 2, 0⟩
+    | _ => ⟨3 / 2, 1 / 2, 0⟩
+  perm := fun c => match c with
+    | 0 => ⟨⟨1, 0, 0⟩, ⟨0, 2, 0⟩, ⟨0, 0, 1⟩⟩
+    | _ => ⟨⟨3, 0, 0⟩, ⟨0, 1, 0⟩, ⟨0, 0, 1⟩⟩
+  bndr := [0, 2, 3, 4, 5, 6]
+  isDir := fun f => f == 0 || f == 6
+  isNeu := fun f => f == 2 || f == 3 || f == 4 || f == 5
+  isInt := fun _ => false
+
+-- the matrices of `ex1` (what `pp.Tpfa` stores for this grid): t = 4 on face 0, 4/3 on face 1, 0 on face 2
+example : fluxT ex1 = [(0, 0, -4), (1, 0, 4 / 3), (1, 1, -4 / 3), (2, 1, 0)] := by decide +kernel
+example : boundFluxT ex1 = [(0, 0, 4), (2, 2, 1)] := by decide +kernel
+example : bpFaceT ex1 = [(0, 0, 1), (2, 2, -1 / 2)] := by decide +kernel
+
+example : cellOp ex1 0 1 = -4 / 3 ∧ cellOp ex1 1 0 = -4 / 3 := by decide +kernel
+
+example : rowApply (fluxT ex1) 1 exP = 1 * trans ex1 1 * (exP 0 - exP 1) :=
+  (tpfa_single_valued_interior ex1 1 ⟨1, 0, 1⟩ ⟨1, 1, -1⟩ exP (by decide +kernel) (by decide +kernel)).1
+
+example : sumTo 2 (fun c => divApply ex2.hf c (fun f => (f : Rat) + 1))
+    = sumTo 7 (fun f => if f ∈ ex2.bndr then bsgn ex2 f * ((f : Rat) + 1) else 0) :=
+  tpfa_conservative ex2 _ (by decide +kernel) (by
+    intro f hf
+    have : f = 1 ∨ 7 ≤ f := by
+      simp only [ex2, List.mem_cons, List.not_mem_nil, or_false, not_or] at hf; omega
+    rcases this with rfl | h7
+    · decide +kernel
+    · have : hfOf ex2 f = [] := by
+        unfold hfOf
+        apply List.filter_eq_nil_iff.mpr
+        intro h hh
+        have : h.face < 7 := by revert h; decide +kernel
+        simp; omega
+      simp [bsgn, this, sgnSum])
+
+/-- constant pressure 5 on `ex2` with Dirichlet data 5 and Neumann data 0: zero flux on all 7 faces -/
+example : ∀ f, faceFlux ex2 f (fun _ => 5) (fun f => if f == 0 || f == 6 then 5 else 0) = 0 :=
+  tpfa_const_zero_flux ex2 5 _ (by decide +kernel)
+    (by
+      intro f hf
+      have : f = 1 ∨ 7 ≤ f := by
+        simp only [ex2, List.mem_cons, List.not_mem_nil, or_false, not_or] at hf; omega
+      rcases this with rfl | h7
+      · decide +kernel
+      · have : hfOf ex2 f = [] := by
+          unfold hfOf
+          apply List.filter_eq_nil_iff.mpr
+          intro h hh
+          have : h.face < 7 := by revert h; decide +kernel
+          simp; omega
+        simp [bsgn, this, sgnSum])
+    (by decide +kernel)
+    (by intro f _ hd; simp only [dirEff, ex2] at hd; have hd' : f = 0 ∨ f = 6 := by simpa using hd
+        rcases hd' with rfl | rfl <;> rfl)
+    (by
+      intro f hn
+      have : ¬ (f = 0 ∨ f = 6) := by
+        simp only [neuAll, ex2, Bool.or_false] at hn
+        rintro (rfl | rfl) <;> simp at hn
+      simp only [not_or] at this
+      simp [this.1, this.2])
+
+example : WellFormed ex2 := by unfold WellFormed; decide +kernel
+example : ∀ h ∈ ex2.hf, 0 < tHalf ex2 h := by decide +kernel
+
+/-- the M-matrix conclusions on `ex2`: A = [[7/2, -3/2], [-3/2, 7/2]] -/
+example : cellOp ex2 0 1 ≤ 0 ∧ 0 < cellOp ex2 0 0 ∧
+    sumTo 2 (fun c2 => if c2 = 0 then 0 else - cellOp ex2 0 c2) ≤ cellOp ex2 0 0 :=
+  have h := tpfa_Mmatrix ex2 (by unfold WellFormed; decide +kernel) (by decide +kernel)
+  ⟨h.1 0 1 (by decide), h.2.2.1 0 ⟨⟨0, 0, -1⟩, by decide +kernel, rfl, by decide +kernel⟩, h.2.2.2 0 (by decide)⟩
+example : cellOp ex2 0 0 = 7 / 2 ∧ cellOp ex2 0 1 = -3 / 2 ∧ cellOp ex2 1 1 = 7 / 2 := by decide +kernel
+
+/-- exactness on `ex1` (K-orthogonal with `λ = 4, 2`): interior face 1 carries the exact flux `-n.KG = -6` -/
+example : rowApply (fluxT ex1) 1 exP = -6 := by
+  have h := tpfa_exact_Korth ex1 1 ⟨1, 0, 1⟩ ⟨1, 1, -1⟩ exK 4 2 1 exG exP
+    (by decide +kernel) (by decide +kernel) (by decide +kernel) (by decide +kernel) rfl rfl
+    (by unfold M3.Symm exK; decide +kernel)
+    (by decide +kernel) (by decide +kernel) (by decide +kernel) (by decide +kernel)
+    (by decide +kernel) (by decide +kernel) (by decide +kernel) rfl rfl
+  rw [h]; decide +kernel
+
+/-- Dirichlet face 0 of `ex1` with the affine boundary value: exact flux -6 -/
+example : faceFlux ex1 0 exP (fun f => 1 + exG.dot (ex1.fc f)) = -6 := by
+  have h := tpfa_exact_Korth_dirichlet ex1 0 ⟨0, 0, -1⟩ exK 4 1 exG exP (fun f => 1 + exG.dot (ex1.fc f))
+    (by decide +kernel) (by decide +kernel) (by decide +kernel) (by decide +kernel) (by decide +kernel)
+    (by decide +kernel) rfl (by unfold M3.Symm exK; decide +kernel) (by decide +kernel) (by decide +kernel) rfl rfl
+  rw [h]; decide +kernel
+
+/-- Neumann face 2 of `ex1` with outward flux datum `+1 * (-6)` -/
+example : faceFlux ex1 2 exP (fun _ => -6) = -6 :=
+  tpfa_exact_neumann ex1 2 ⟨2, 1, 1⟩ (-6) exP _ (by decide +kernel) (by decide +kernel) (by decide +kernel)
+    (by decide +kernel) (by decide +kernel) (by decide +kernel)
+
+/-- boundary pressure on the Neumann face 2 of `ex1`: `p(x_f) = 1 + 3*3 = 10` -/
+example : facePressure ex1 2 exP (fun _ => -6) = 10 := by
+  have h := tpfa_bound_pressure_exact_Korth ex1 2 ⟨2, 1, 1⟩ exK 2 1 exG exP (fun _ => -6)
+    (by decide +kernel) (by decide) (by decide +kernel) rfl (by unfold M3.Symm exK; decide +kernel)
+    (by decide +kernel) (by decide +kernel) (by decide +kernel) rfl (by decide +kernel)
+  rw [h]; decide +kernel
+
+example : facePressure ex1 0 exP (fun _ => 42) = 42 :=
+  tpfa_bound_pressure_dirichlet ex1 0 exP _ (by decide) (by decide +kernel) (by decide +kernel)
 
 end PorepyVerif.C12
